@@ -46,7 +46,7 @@ fn gen_program(t: &mut Tape, modified: bool) -> ProgOut {
     for k in 0..n {
         filler(t, &mut lines);
         let name = format!("t{k}");
-        let choice = if modified { t.below(11) } else { 100 + t.below(4) };
+        let choice = if modified { t.below(12) } else { 100 + t.below(4) };
         match choice {
             0 => lines.push(format!("function {name}(a, b) {{ return a.x.substring(1) + b }}")),
             1 => lines.push(format!("function {name}(a, b) {{ return thrower('{name}' + a.s) }}")),
@@ -78,6 +78,8 @@ fn gen_program(t: &mut Tape, modified: bool) -> ProgOut {
             }
             8 => lines.push(format!("function {name}(a, b) {{ b = undefined; return b.trim() + a.s }}")),
             10 => lines.push(format!("function {name}(a, b) {{ return eval('evalThrower(a.s)') + a.s }}")),
+            // a function made by eval, called back later by someone else: the only trace of the file is the eval origin
+            11 => lines.push(format!("function {name}(a, b) {{ const pre = a.s + b; return eval('(function compiled(q) {{ return q.x.y }})') }}")),
             // an error message that itself contains lines looking like stack frames (a wrapped cause, a quoted trace)
             9 => lines.push(format!("function {name}(a, b) {{ throw new Error('wrapped ' + a.s + '\\n    at inner (/nowhere/cause.js:1:1)\\n  at all costs') }}")),
             103 => lines.push(format!("function {name}(a, b) {{ throw new Error('plain\\n    at inner (/nowhere/cause.js:1:1)\\n  at all costs') }}")),
